@@ -237,7 +237,7 @@ def _solve_custom(demands, pricing_fn, initial_columns, max_iter, eps, on_progre
         if x > eps:
             count = ceil(x - eps)
             if count > 0:
-                solution[col] = count
+                solution[col] = solution.get(col, 0) + count  # a column may be listed more than once
                 total += count
 
     lb = ceil(lp_obj - eps)
